@@ -79,7 +79,8 @@ func recovery(logger *slog.Logger, c Context, handle RecoveryFunc) {
 				if idx < 0 {
 					continue
 				}
-				if slices.Contains(blacklistedHeader, string(header[:idx])) {
+				// Header names are case-insensitive, and the dump print them as they are stored.
+				if slices.ContainsFunc(blacklistedHeader, func(name string) bool { return strings.EqualFold(name, string(header[:idx])) }) {
 					sb.Write(header[:idx])
 					sb.WriteString(": <redacted>")
 					continue
